@@ -94,7 +94,7 @@ pub fn denote(n: usize, s: &str) -> (Option<Tt>, bool /* contains upper case */)
     (Tt::from_hex(n, s), upper)
 }
 
-fn run_parse(c: &ParseCase) -> Verdict {
+pub fn run_parse(c: &ParseCase) -> Verdict {
     let fl = c.fam.label();
     let n = c.n;
     let (want, upper) = denote(n, &c.s);
@@ -195,7 +195,7 @@ pub fn def() -> PropDef {
                 name: "print",
                 rule: "see property rule",
                 strategy: strategy_print,
-                cases: (20_000, 1_000_000),
+                cases: (150_000, 2_000_000),
                 exhaustive: Some(enumerate_print),
                 exhaustive_note: "all functions n<=3 (quick) / n<=4 (thorough), both families",
                 run: run_print,
@@ -204,7 +204,7 @@ pub fn def() -> PropDef {
                 name: "parse",
                 rule: "see property rule",
                 strategy: strategy_parse,
-                cases: (60_000, 4_000_000),
+                cases: (600_000, 8_000_000),
                 exhaustive: Some(enumerate_parse),
                 exhaustive_note: "all 1-char ASCII strings n<=2; all strings over the 20-symbol alphabet with length <= width+1 for n<=3 (quick) / n<=4 (thorough)",
                 run: run_parse,
